@@ -344,7 +344,12 @@ def check_C20(tier: str, v: Verdict):
             table = [[cell() for _ in range(ng * nm)] for _ in range(ns)]
             perm = list(range(ns))
             rng.shuffle(perm)
-            recs.append(rec_c20(table, ng, nm, [f"s{j}" for j in range(ns)], root / f"r{i}", perm, meta={"gen": "random"}))
+            names = [f"s{j}" for j in range(ns)]
+            if rng.random() < 0.4:
+                # subject names that are prefixes / suffixes of one another, in any recording order: a lookup is
+                # by the exact name
+                names = rng.sample(["sub-10", "sub-1", "sub-100", "sub", "case_3.nii.gz", "case_3", "1", "10", "b-sub-1"], ns)
+            recs.append(rec_c20(table, ng, nm, names, root / f"r{i}", perm, meta={"gen": "random", "subject_names": names}))
     finally:
         shutil.rmtree(root, ignore_errors=True)
     v.cov["evaluations"] = len(recs)
